@@ -17,7 +17,7 @@ def ft(data, delta):
     """
     DATA = numpy.fft.fftshift(
             numpy.fft.fft(
-                    numpy.fft.fftshift(data, axes=(-1))),
+                    numpy.fft.ifftshift(data, axes=(-1))),
             axes=(-1)) * delta
     return DATA
 
@@ -33,7 +33,7 @@ def ift(data, delta_f):
         ndarray: Scaled data in real space
     """
 
-    DATA = numpy.fft.ifftshift(
+    DATA = numpy.fft.fftshift(
             numpy.fft.ifft(
                     numpy.fft.ifftshift(data, axes=(-1))),
             axes=(-1)) * data.shape[-1] * delta_f
@@ -55,7 +55,7 @@ def ft2(data, delta):
 
     DATA = numpy.fft.fftshift(
             numpy.fft.fft2(
-                    numpy.fft.fftshift(data, axes=(-1,-2))
+                    numpy.fft.ifftshift(data, axes=(-1,-2))
                     ), axes=(-1,-2)
             )*delta**2
 
@@ -73,7 +73,7 @@ def ift2(data, delta_f):
         ndarray: Scaled data in real space
     """
     N = data.shape[-1]
-    DATA = numpy.fft.ifftshift(
+    DATA = numpy.fft.fftshift(
             numpy.fft.ifft2(
                     numpy.fft.ifftshift(data, axes=(-1,-2)
                     ), axes=(-1,-2))
